@@ -232,6 +232,15 @@ func (p *Processor) ChargingDataUpdate(
 	ue.CULock.Lock()
 	defer ue.CULock.Unlock()
 
+	if _, exist := ue.Cdr[chargingSessionId]; !exist {
+		logger.ChargingdataPostLog.Errorf("Charging session[%s] of CHFUe[%s] not found", chargingSessionId, ueId)
+		problemDetails := &models.ProblemDetails{
+			Status: http.StatusNotFound,
+			Cause:  "RESOURCE_URI_STRUCTURE_NOT_FOUND",
+		}
+		return nil, problemDetails
+	}
+
 	// Online charging: Rate, Account, Reservation
 	responseBody, partialRecord := p.BuildConvergedChargingDataUpdateResopone(chargingData)
 
@@ -347,6 +356,15 @@ func (p *Processor) ChargingDataRelease(
 
 	ue.CULock.Lock()
 	defer ue.CULock.Unlock()
+
+	if _, exist := ue.Cdr[chargingSessionId]; !exist {
+		logger.ChargingdataPostLog.Errorf("Charging session[%s] of CHFUe[%s] not found", chargingSessionId, ueId)
+		problemDetails := &models.ProblemDetails{
+			Status: http.StatusNotFound,
+			Cause:  "RESOURCE_URI_STRUCTURE_NOT_FOUND",
+		}
+		return problemDetails
+	}
 
 	sessionChargingReservation(chargingData)
 
